@@ -8,6 +8,8 @@ import (
 	"strings"
 	"sync"
 	"time"
+
+	"golang.org/x/net/idna"
 )
 
 func init() { commands["cred"] = credRun }
@@ -145,6 +147,16 @@ func (pe *pipeEnv) credCase(c *credCase) map[string]any {
 	host := c.Req.Host + ".test"
 	if c.Req.Host == "originUpper" {
 		host = "ORIGIN.TEST"
+	}
+	if c.Req.Host == "originDotlessI" {
+		// another host: whatever the transport dials for it is served by the plain origin as well
+		host = "or\u0130gin.test"
+		if a, err := idna.Lookup.ToASCII(host); err == nil {
+			pe.f.mapName(a+":80", pe.peers[0].addr())
+			pe.f.mapName(a+":8080", pe.peers[0].addr())
+		}
+		pe.f.mapName(strings.ToLower(host)+":80", pe.peers[0].addr())
+		pe.f.mapName(strings.ToLower(host)+":8080", pe.peers[0].addr())
 	}
 	hp := host
 	if c.Req.Port == "8080" {
